@@ -265,6 +265,31 @@ class SA:
     def __rtruediv__(s, o):
         return s._bin(o, lambda a, b: b / a)
 
+    # in-place operators write into the existing buffer (as numpy does): other names and views bound to the
+    # same array observe the update
+    def _inplace(self, o, f):
+        r = self._bin(o, f)
+        if r is NotImplemented:
+            return r
+        if r.shape != self.shape:
+            raise ValueError(f"non-broadcastable output operand with shape {self.shape} doesn't match the broadcast shape {r.shape}")
+        if r._kind == "c" and self.kind != "c":
+            raise TypeError("Cannot cast ufunc output from dtype('complex128') to dtype('float64') with casting rule 'same_kind'")
+        self.data[...] = r.data
+        return self
+
+    def __iadd__(s, o):
+        return s._inplace(o, lambda a, b: a + b)
+
+    def __isub__(s, o):
+        return s._inplace(o, lambda a, b: a - b)
+
+    def __imul__(s, o):
+        return s._inplace(o, lambda a, b: a * b)
+
+    def __itruediv__(s, o):
+        return s._inplace(o, lambda a, b: a / b)
+
     def __pow__(s, k):
         if isinstance(k, SA) or isinstance(k, _np.ndarray):
             return _map2(lambda a, b: _sc(a) ** b, s, k)
